@@ -219,6 +219,9 @@ func Generate(r *rand.Rand, profile string, concurrent bool) *Plan {
 			o.K = OpAdvance
 			o.A = r.IntN(5)
 			o.Ms = []int{1, 5, 10, 20, 30, 50, 100}[r.IntN(7)]
+			if r.IntN(12) == 0 {
+				o.Ms = []int{31000, 600000, 86400000}[r.IntN(3)] // a quiet period
+			}
 			o.Hold = r.IntN(2) == 0
 		default:
 			o.K = OpRunTimer
